@@ -259,10 +259,56 @@ static void ranges(report& r)
     }
 }
 
+// Every pattern of {0, 1/2, largest below 1} over the canonical numbers of two calls, delivered by the scripted
+// 64-bit engine (one raw draw per number): the consumption must not depend on the values drawn.
+template <typename T>
+static void extremes(report& r)
+{
+    std::string const tn = vf::type_name<T>();
+    std::uint64_t const vals[3] = {0, std::uint64_t(1) << 63, vf::raw_for<T>(std::nextafter(T(1), T(0)))};
+    for (int kind = 0; kind != 3; ++kind)
+    {
+        sz const d = 2, calls = 2;
+        sz const numbers = (kind == 2 ? d + 1 : d) * calls;
+        sz patterns = 1; for (sz i = 0; i != numbers; ++i) patterns *= 3;
+        for (sz pat = 0; pat != patterns; ++pat)
+        {
+            std::string const id = tn + " extremes kind=" + std::to_string(kind) + " pattern=" + std::to_string(pat);
+            if (!r.want(id)) continue;
+            r.eval();
+            auto& table = vf::script_engine::table();
+            table.clear();
+            sz rest = pat; bool has_zero = false;
+            for (sz i = 0; i != numbers; ++i) { table.push_back(vals[rest % 3]); has_zero |= rest % 3 == 0; rest /= 3; }
+            vf::script_engine gen;
+            vf::script_engine::draws() = 0;
+            if (kind == 0) (void) hep::plain_iteration(hep::make_integrand<T>(pattern_fn<T>{1}, d), calls, gen);
+            else if (kind == 1)
+            {
+                hep::vegas_pdf<T> pdf(d, 3);
+                pdf.set_bin_left(0, 1, T(0.1L));
+                (void) hep::vegas_iteration(hep::make_integrand<T>(pattern_fn<T>{1}, d), calls, pdf, gen);
+            }
+            else
+            {
+                vf::pl_map<T> map; map.split = {T(0.25), T(0.75)}; map.dims = d;
+                (void) hep::multi_channel_iteration(hep::make_multi_channel_integrand<T>(pattern_mc_fn<T>{pattern_fn<T>{1}, false}, d, map, d, 2), calls,
+                    std::vector<T>{T(0.5), T(0.5)}, gen);
+            }
+            if (vf::script_engine::draws() != numbers || gen.position() != numbers)
+                r.violate("draws-depend-on-the-values-drawn", id, id + ": " + std::to_string(vf::script_engine::draws()) + " raw draws (generator at position "
+                    + std::to_string(gen.position()) + ") for " + std::to_string(numbers) + " canonical numbers");
+            if (has_zero) r.distinct(vf::hash_str(id));
+        }
+    }
+    vf::script_engine::table().clear();
+}
+
 template <typename T>
 static void for_type(report& r)
 {
     if (!r.want_prefix(vf::type_name<T>())) return;
+    if (r.want_prefix(std::string(vf::type_name<T>()) + " extremes")) extremes<T>(r);
     product<T, std::minstd_rand0>(r);
     product<T, std::minstd_rand>(r);
     product<T, std::mt19937>(r);
